@@ -64,7 +64,7 @@ func bceCrossCheck(c *Check, a *Analysis) map[string]interface{} {
 	n, bad := 0, 0
 	perFn := map[string]int{}
 	for _, fn := range p.Fns {
-		eachInstr(fn, func(in ssa.Instruction) {
+		eachInstrLocal(fn, func(in ssa.Instruction) {
 			var base ssa.Value
 			switch x := in.(type) {
 			case *ssa.IndexAddr:
@@ -145,7 +145,7 @@ func paramDerivedReadOnly(p *Prog, fn *ssa.Function, base ssa.Value) bool {
 	}
 	// any store through an IndexAddr rooted at this parameter → writer side
 	writer := false
-	eachInstr(fn, func(in ssa.Instruction) {
+	eachInstrLocal(fn, func(in ssa.Instruction) {
 		s, ok := in.(*ssa.Store)
 		if !ok {
 			return
@@ -174,7 +174,7 @@ func paramDerivedReadOnly(p *Prog, fn *ssa.Function, base ssa.Value) bool {
 	// (or hands it to a hslam/code decoder); a pure reslice of an output buffer
 	// is covered by R-RESLICE-GUARD (C07), not by this rule.
 	reads := false
-	eachInstr(fn, func(in ssa.Instruction) {
+	eachInstrLocal(fn, func(in ssa.Instruction) {
 		rootOf := func(v ssa.Value) ssa.Value {
 			for i := 0; i < 8; i++ {
 				v = p.canon(v)
